@@ -60,6 +60,9 @@ pub struct Trace {
     /// instruction: falcon's Branch semantics (`RefProgramLocation::from_address`) has no location
     /// for such a target
     pub branch_to_no_il: bool,
+    /// (reference run of the function) a Branch operation continued at the head of a native
+    /// instruction's graph that is not "the first Instruction with the given address"
+    pub first_instruction_rule_differs: bool,
 }
 
 /// what the digests range over
@@ -276,7 +279,7 @@ pub fn run_stepper(p: &Program, units: &BTreeMap<u64, Unit>, init: &RefState, li
     let idle_limit = p.insns.len() + 8;
     let to_no_il = std::cell::Cell::new(false);
     let fin = |rec: Rec, end: End, state: RefState, md: u64, taken: usize, note: String| -> Trace {
-        Trace { evs: rec.evs, end, final_digest: scal_digest_ref(w, &state) ^ md.rotate_left(1), taken, snapshot: rec.snapshot, final_state: Some(state), note, branch_to_no_il: to_no_il.get() }
+        Trace { evs: rec.evs, end, final_digest: scal_digest_ref(w, &state) ^ md.rotate_left(1), taken, snapshot: rec.snapshot, final_state: Some(state), note, branch_to_no_il: to_no_il.get(), first_instruction_rule_differs: false }
     };
     loop {
         if rec.idle > idle_limit {
@@ -364,19 +367,65 @@ pub fn run_stepper(p: &Program, units: &BTreeMap<u64, Unit>, init: &RefState, li
 // ---------------------------------------------------------------------------------------------
 // the recovered function under the reference interpreter
 
-/// Where a Branch to `target` continues inside the function: falcon defines it
-/// (`RefProgramLocation::from_address`, used by `Driver::step`) as "the first Instruction with the
-/// given address", blocks taken in index order.  (A native instruction whose graph has several
-/// blocks starts several blocks with its address; the graph's entry block has the lowest index.)
-fn locate(view: &FnView, target: u64) -> Result<Loc, String> {
+/// Where a Branch to `target` continues inside the function: at the first IL instruction of the
+/// native instruction at `target`, i.e. at the head of that instruction's graph.
+///
+/// A native instruction whose graph has several blocks (x86 jcc, MIPS slt, ...) starts several IL
+/// blocks with its address.  The head is the start from which every other start is reachable
+/// through IL that carries the same address (and empty blocks).  falcon's own rule
+/// (`RefProgramLocation::from_address`, used by `Driver::step`) is "the first Instruction with the
+/// given address", blocks taken in index order; it is used when the head cannot be told (an
+/// instruction that loops to itself).  Returns (destination, falcon's rule lands elsewhere).
+fn locate(view: &FnView, target: u64) -> Result<(Loc, bool), String> {
+    let mut starts: Vec<(usize, usize)> = Vec::new();
     for (b, is) in &view.blocks {
-        for i in is.iter() {
-            if i.address == Some(target) {
-                return Ok(Loc::Instr(*b, i.index));
+        for (pos, i) in is.iter().enumerate() {
+            if i.address == Some(target) && (pos == 0 || is[pos - 1].address != Some(target)) {
+                starts.push((*b, pos));
             }
         }
     }
-    Err("branch-target-not-in-function".into())
+    let Some(&first) = starts.first() else {
+        return Err("branch-target-not-in-function".into());
+    };
+    let loc_of = |(b, pos): (usize, usize)| Loc::Instr(b, view.blocks[&b][pos].index);
+    if starts.len() == 1 {
+        return Ok((loc_of(first), false));
+    }
+    let reaches_all = |from: (usize, usize)| -> bool {
+        let mut seen_blocks: BTreeSet<usize> = BTreeSet::new();
+        let mut reached: BTreeSet<(usize, usize)> = BTreeSet::new();
+        reached.insert(from);
+        // (block, position to continue from)
+        let mut work = vec![from];
+        while let Some((b, pos)) = work.pop() {
+            let is = &view.blocks[&b];
+            if is[pos..].iter().any(|i| i.address != Some(target)) {
+                continue;
+            }
+            // the rest of the block belongs to the instruction: follow the out-edges
+            let mut succ: Vec<usize> = view.out_edges(b).iter().map(|e| e.tail).collect();
+            while let Some(t) = succ.pop() {
+                if !seen_blocks.insert(t) {
+                    continue;
+                }
+                let tis = &view.blocks[&t];
+                if tis.is_empty() {
+                    succ.extend(view.out_edges(t).iter().map(|e| e.tail));
+                } else if tis[0].address == Some(target) {
+                    reached.insert((t, 0));
+                    work.push((t, 0));
+                }
+            }
+        }
+        starts.iter().all(|s| reached.contains(s))
+    };
+    let heads: Vec<(usize, usize)> = starts.iter().copied().filter(|s| reaches_all(*s)).collect();
+    if heads.len() == 1 {
+        Ok((loc_of(heads[0]), heads[0] != first))
+    } else {
+        Ok((loc_of(first), false))
+    }
 }
 
 /// An event-free stretch of the function run passes through the IL of one native instruction,
@@ -391,12 +440,13 @@ pub fn run_ref(isa: Isa, view: &FnView, init: &RefState, lifted: &BTreeSet<u64>,
     let mut m = match Machine::new(view, init.clone()) {
         Ok(m) => m,
         Err(f) => {
-            return Trace { evs: vec![], end: End::Fault(format!("entry:{}", f.kind())), final_digest: 0, taken: 0, snapshot: None, final_state: None, note: String::new(), branch_to_no_il: false };
+            return Trace { evs: vec![], end: End::Fault(format!("entry:{}", f.kind())), final_digest: 0, taken: 0, snapshot: None, final_state: None, note: String::new(), branch_to_no_il: false, first_instruction_rule_differs: false };
         }
     };
     let mut md = mem_digest_ref(w, &m.state);
     let idle_limit = idle_limit_of(view);
     let mut note = String::new();
+    let mut first_instruction_rule_differs = false;
     let _ = isa;
     let end = loop {
         if rec.idle > idle_limit {
@@ -424,7 +474,12 @@ pub fn run_ref(isa: Isa, view: &FnView, init: &RefState, lifted: &BTreeSet<u64>,
                     break End::Exit(target);
                 }
                 let dest = match locate(view, target) {
-                    Ok(l) => l,
+                    Ok((l, elsewhere)) => {
+                        if elsewhere {
+                            first_instruction_rule_differs = true;
+                        }
+                        l
+                    }
                     Err(e) if e == "branch-target-not-in-function" && no_il.contains(&target) => {
                         // The target is a lifted native instruction without any IL instruction (a
                         // direct branch): a Branch operation cannot name it.  Continue along the one
@@ -516,7 +571,59 @@ pub fn run_ref(isa: Isa, view: &FnView, init: &RefState, lifted: &BTreeSet<u64>,
         }
     };
     let fd = scal_digest_ref(w, &m.state) ^ md.rotate_left(1);
-    Trace { evs: rec.evs, end, final_digest: fd, taken: 0, snapshot: rec.snapshot, final_state: Some(m.state), note, branch_to_no_il: false }
+    Trace { evs: rec.evs, end, final_digest: fd, taken: 0, snapshot: rec.snapshot, final_state: Some(m.state), note, branch_to_no_il: false, first_instruction_rule_differs }
+}
+
+// ---------------------------------------------------------------------------------------------
+// one block as a single graph (blockify) under the reference interpreter
+
+/// Run a block graph from its entry until a Branch operation, the end of the graph or `cap` events.
+pub fn run_block(view: &FnView, init: &RefState, w: &Watch, cap: usize) -> Trace {
+    let mut rec = Rec::new(cap, None);
+    let mut m = match Machine::new(view, init.clone()) {
+        Ok(m) => m,
+        Err(f) => {
+            return Trace { evs: vec![], end: End::Fault(format!("entry:{}", f.kind())), final_digest: 0, taken: 0, snapshot: None, final_state: None, note: String::new(), branch_to_no_il: false, first_instruction_rule_differs: false };
+        }
+    };
+    let mut md = mem_digest_ref(w, &m.state);
+    let idle_limit = idle_limit_of(view);
+    let mut note = String::new();
+    let end = loop {
+        if rec.idle > idle_limit {
+            break End::Stall;
+        }
+        rec.idle += 1;
+        if let Loc::Instr(b, i) = m.loc {
+            if let Some(a) = view.instr(b, i).and_then(|iv| iv.address) {
+                if rec.starts_event(a, (b, i)) {
+                    if rec.evs.len() >= rec.cap {
+                        break End::Cap;
+                    }
+                    rec.begin(a, scal_digest_ref(w, &m.state) ^ md.rotate_left(1));
+                }
+                rec.visited.insert((b, i));
+            }
+        }
+        let last = at_graph_end(view, m.loc);
+        if last {
+            if let Loc::Empty(_) = m.loc {
+                break End::Exit(0);
+            }
+        }
+        match m.step() {
+            Ok(Effect::Branch { target }) => break End::Exit(target),
+            Ok(Effect::Store { .. }) => md = mem_digest_ref(w, &m.state),
+            Ok(_) => {}
+            Err(Fault::NoEdge) if last && m.last_effect.is_some() => break End::Exit(0),
+            Err(f) => {
+                note = format!("at {:?}", m.loc);
+                break End::Fault(f.kind().to_string());
+            }
+        }
+    };
+    let fd = scal_digest_ref(w, &m.state) ^ md.rotate_left(1);
+    Trace { evs: rec.evs, end, final_digest: fd, taken: 0, snapshot: None, final_state: Some(m.state), note, branch_to_no_il: false, first_instruction_rule_differs: false }
 }
 
 // ---------------------------------------------------------------------------------------------
@@ -530,7 +637,7 @@ pub fn run_driver(isa: Isa, function: &il::Function, arch: RC<dyn Architecture>,
         Ok(Loc::Instr(b, i)) => il::FunctionLocation::Instruction(b, i),
         Ok(Loc::Empty(b)) => il::FunctionLocation::EmptyBlock(b),
         _ => {
-            return Trace { evs: vec![], end: End::Fault("entry".into()), final_digest: 0, taken: 0, snapshot: None, final_state: None, note: String::new(), branch_to_no_il: false };
+            return Trace { evs: vec![], end: End::Fault("entry".into()), final_digest: 0, taken: 0, snapshot: None, final_state: None, note: String::new(), branch_to_no_il: false, first_instruction_rule_differs: false };
         }
     };
     let mut program = il::Program::new();
@@ -616,7 +723,7 @@ pub fn run_driver(isa: Isa, function: &il::Function, arch: RC<dyn Architecture>,
     };
     let fd = scal_digest_falcon(w, driver.state()) ^ md.rotate_left(1);
     let fs = falcon_to_ref(w, driver.state(), big);
-    Trace { evs: rec.evs, end, final_digest: fd, taken: 0, snapshot: rec.snapshot, final_state: Some(fs), note, branch_to_no_il: false }
+    Trace { evs: rec.evs, end, final_digest: fd, taken: 0, snapshot: rec.snapshot, final_state: Some(fs), note, branch_to_no_il: false, first_instruction_rule_differs: false }
 }
 
 pub fn error_kind(e: &falcon::Error) -> String {
